@@ -206,6 +206,42 @@ func (g *gate) wait(key string) int {
 	}
 }
 
+// waitOr is wait, given up when done is closed (ok = false).
+func (g *gate) waitOr(key string, done <-chan struct{}) (int, bool) {
+	stop := make(chan struct{})
+	defer close(stop)
+	cancelled := false
+	go func() {
+		select {
+		case <-done:
+			g.mu.Lock()
+			cancelled = true
+			g.cond.Broadcast()
+			g.mu.Unlock()
+		case <-stop:
+		}
+	}()
+	g.mu.Lock()
+	defer g.mu.Unlock()
+	g.arrived[key]++
+	g.cond.Broadcast()
+	for {
+		if g.has[key] {
+			d := g.decision[key]
+			delete(g.has, key)
+			delete(g.decision, key)
+			return d, true
+		}
+		if g.open {
+			return g.openDec, true
+		}
+		if cancelled {
+			return 0, false
+		}
+		g.cond.Wait()
+	}
+}
+
 func (g *gate) release(key string, decision int) {
 	g.mu.Lock()
 	g.has[key] = true
